@@ -341,6 +341,10 @@ func ValidateMutation(column *ColumnSchema, mutator Mutator, value interface{}) 
 	if !column.Mutable() {
 		return fmt.Errorf("column is not mutable")
 	}
+	if value == nil {
+		return NewErrWrongType(fmt.Sprintf("Mutation %s of column %s", mutator, column),
+			NativeType(column).String(), value)
+	}
 	switch column.Type {
 	case TypeSet:
 		switch mutator {
